@@ -813,8 +813,16 @@ def _dec_scalar(ty, wt, rd):
         return F32(struct.unpack("<I", rd.take(4))[0])
     if ty == "double":
         return F64(struct.unpack("<Q", rd.take(8))[0])
-    if ty in ("string", "bytes"):
+    if ty == "bytes":
         return bytes(rd.take(rd.varint()))
+    if ty == "string":
+        # "a string must always contain UTF-8 encoded text": every string position (pilota validates since the repair of F-10b)
+        b = bytes(rd.take(rd.varint()))
+        try:
+            b.decode("utf-8")
+        except UnicodeDecodeError:
+            raise RefError("utf8", "invalid UTF-8 in a string")
+        return b
     raise ValueError(ty)
 
 
@@ -1973,10 +1981,15 @@ def judge(corpus, sizes, line, out_text, feature="plain"):
         if o.status != "OK":
             cls = "unknown-at-depth-limit" if kind == "unk-at-limit" else "rejects-valid"
             return (cls, "a valid encoding is rejected: " + out_text[:120])
-    if UTF8_ORACLE[0] and o.status == "OK" and ref[0] == "ok" and msg is not None:
+    # regression of F-10b (repaired): a `string` position with invalid UTF-8 is a decode error, in every check
+    if o.status == "OK" and ref == ("err", "utf8"):
+        return ("invalid-utf8-accepted", "a `string` that is not UTF-8 was decoded to a value (the reference decoder says: invalid UTF-8)")
+    if a.get("g") == "bad-utf8" and not (o.status == "ERR" and o.cls == "utf8"):
+        return ("invalid-utf8-accepted", "invalid UTF-8 in a string field must give ERR utf8, got " + out_text[:100])
+    if o.status == "OK" and ref[0] == "ok" and msg is not None and UTF8_ORACLE[0]:
         where = _bad_utf8(msg, ref[1])
         if where:
-            return ("invalid-utf8-accepted", "the decoded message holds a `string` that is not UTF-8 (%s): FastStr::from_bytes_unchecked on unvalidated bytes" % where)
+            return ("invalid-utf8-accepted", "the decoded message holds a `string` that is not UTF-8 (%s)" % where)
     if o.status == "ERR":
         if ref[0] == "ok" and kind == "fuzz":
             return ("rejects-valid", "the reference decoder accepts these bytes, pilota says " + out_text[:80])
